@@ -75,6 +75,36 @@ Theorem C11_wildcard_in_topic_yields_twice :
 Proof. exact iter_match_wild_topic_twice. Qed.
 Print Assumptions C11_wildcard_in_topic_yields_twice.
 
+(* ---------------------------------------------------------------- the specification itself, clause by clause
+   (Matcher/SpecLaws.v): laws of spec_match / match_levels for ALL level lists, so the specification
+   that 1.-3. refine is pinned to the property text and not only to the OASIS examples below *)
+From PahoV Require Import Matcher.SpecLaws.
+
+(* '+' matches exactly one level (also an empty one: y is arbitrary) *)
+Theorem C11_spec_plus_exactly_one_level : forall f y t,
+  match_levels (lvl_plus :: f) (y :: t) = match_levels f t /\ match_levels (lvl_plus :: f) [] = false.
+Proof. intros f y t; split; [exact (plus_one_level f y t) | exact (plus_needs_a_level f)]. Qed.
+Print Assumptions C11_spec_plus_exactly_one_level.
+
+(* a trailing '#' matches the parent and any number of further levels, and behind literal levels nothing else *)
+Theorem C11_spec_hash_parent_and_children : forall p,
+  (forall rest, match_levels (p ++ [lvl_hash]) (p ++ rest) = true) /\
+  (forallb lit p = true -> forall t, match_levels (p ++ [lvl_hash]) t = true -> exists rest, t = p ++ rest).
+Proof. intros p; split; [exact (hash_parent_and_children p) | exact (hash_only_below_parent p)]. Qed.
+Print Assumptions C11_spec_hash_parent_and_children.
+
+(* other levels match literally and case-sensitively: a filter without wildcards matches exactly its own level list *)
+Theorem C11_spec_literal : forall f, forallb lit f = true -> forall t, match_levels f t = levels_eqb f t.
+Proof. exact literal_filter. Qed.
+Print Assumptions C11_spec_literal.
+
+(* a wildcard in the first level never matches a topic beginning with '$'; that is the only effect of '$' *)
+Theorem C11_spec_dollar_rule : forall f t,
+  (first_wild f = true -> dollar_topic t = true -> spec_match f t = false) /\
+  (first_wild f && dollar_topic t = false -> spec_match f t = match_levels f t).
+Proof. intros f t; split; [exact (dollar_rule f t) | exact (dollar_rule_only f t)]. Qed.
+Print Assumptions C11_spec_dollar_rule.
+
 (* ---------------------------------------------------------------- non-vacuity and spec sanity *)
 Definition b (s : string) : list Z := map (fun a => Z.of_N (N_of_ascii a)) (list_ascii_of_string s).
 Definition sm (f t : string) : bool := spec_match_str (b f) (b t).
